@@ -56,3 +56,27 @@ Proof.
   destruct (signer_key_listed _ _ _ _ I' S) as [kn0 [cn0 [k0 [Sel0 [Hk0 _]]]]].
   rewrite Sel in Sel0. inversion Sel0; subst. congruence.
 Qed.
+
+(* ---- histories without injected failures are runs of the specification ------------------------------------------ *)
+From NDN Require Import Proofs.KeychainRefine.
+
+Definition spec_apply (a : skc) (o : op) : skc := match spec_step o a with Some a' => a' | None => a end.
+Definition spec_run (ops : list op) : skc := fold_left spec_apply ops s_empty.
+
+Lemma step_abs o c : inv c -> wf_op o -> abs (step c (None, o)) = spec_apply (abs c) o.
+Proof.
+  intros I Wo. pose proof (step_refines o c I Wo) as R. unfold step, spec_apply. cbn [fst snd].
+  unfold refines in R. destruct o; try (destruct (spec_step _ (abs c)); destruct R as [_ R]; exact R).
+  exact R.
+Qed.
+
+Lemma run_refines_spec ops :
+  Forall wf_op ops -> abs (run (map (fun o => (None, o)) ops)) = spec_run ops.
+Proof.
+  intros W. unfold run, spec_run.
+  assert (G : forall c a, inv c -> abs c = a ->
+                          abs (run_from c (map (fun o => (None, o)) ops)) = fold_left spec_apply ops a).
+  { induction W as [|o ops Wo _ IH]; intros c a I E; cbn; [assumption|].
+    apply IH; [apply inv_step; assumption|]. rewrite step_abs by assumption. rewrite E. reflexivity. }
+  apply G; [apply inv_init | reflexivity].
+Qed.
